@@ -2,6 +2,7 @@ package main
 
 import (
 	"fmt"
+	"os"
 	"go/types"
 	"sort"
 	"strings"
@@ -147,7 +148,17 @@ func (x *Exec) doCall(st *State, fr *Frame, cc *ssa.CallCommon, fv Val, args []V
 
 // blocked: a call the engine cannot give meaning to. The function under verification is reported outside the subset.
 func (x *Exec) blocked(st *State, fr *Frame, what string, sig *types.Signature, pos string, k contK) {
-	x.unsupported("no contract for %s at %s", what, pos)
+	if os.Getenv("GOVC_STRICT") != "" || sig == nil {
+		x.unsupported("no contract for %s at %s", what, pos)
+	}
+	// conservative meaning of a call nothing is known about: it may change the whole heap and return anything
+	x.assumed["no contract for "+what+": treated as arbitrary heap effects and an arbitrary result (sound over-approximation; closures it may call back are not run)"] = true
+	x.havocAll(st)
+	st.allKept = map[string]bool{}
+	na := x.freshConst("alloc", "Int")
+	st.assume(app("<=", st.alloc, na))
+	st.alloc = na
+	k(st, fr, x.freshResults(st, sig, "unk"))
 }
 
 func (x *Exec) invoke(st *State, fr *Frame, cc *ssa.CallCommon, recv Val, args []Val, pos string, k contK) {
@@ -511,7 +522,7 @@ func (x *Exec) applyContract(st *State, fr *Frame, con *Contract, name string, s
 	}
 	nq := new(int)
 	*nq = x.nfresh * 1000
-	env := &Env{x: x, st: st, vars: vars, pkgPath: con.PkgPath, wrap: con.Mode == ModeBV && x.mode == ModeInt, nq: &x.nfresh}
+	env := &Env{x: x, st: st, vars: vars, pkgPath: con.PkgPath, wrap: con.Mode == ModeBV && x.mode == ModeInt, nq: &x.nfresh, noGhost: true}
 	// implicit: pointer receiver non-nil
 	if sig.Recv() != nil && !strings.HasPrefix(name, "iface:") {
 		if _, isPtr := sig.Recv().Type().Underlying().(*types.Pointer); isPtr && args[0].K == KScalar {
@@ -537,21 +548,24 @@ func (x *Exec) applyContract(st *State, fr *Frame, con *Contract, name string, s
 		return
 	}
 	pre := st.clone()
-	x.curCallee = name
-	x.havocModifies(st, env, con, name)
-	x.curCallee = ""
-	// allocation may grow
+	// allocation may grow (before the havoc, so that modified arrays are bounded by the post-call allocation counter)
 	if !con.NoAlloc {
 		na := x.freshConst("alloc", "Int")
 		st.assume(app("<=", st.alloc, na))
 		st.alloc = na
 	}
+	x.curCallee = name
+	x.havocModifies(st, env, con, name)
+	x.curCallee = ""
 	res := x.freshResults(st, sig, "ret")
 	post := env.with(x.resultVars(sig, res))
 	post.st = st
 	post.old = pre
 	x.collectTyping = true
 	for _, c := range con.Ensures {
+		if mentionsGhost(c.E, con) {
+			continue // clauses about the callee's own ghost state are internal to its proof
+		}
 		t, err := x.trClause(post, c)
 		if err != nil {
 			x.unsupported("%v", err)
@@ -592,6 +606,7 @@ type modGroup struct {
 func (x *Exec) resolveModifies(env *Env, items []ModItem, where string) (map[string]*modGroup, bool) {
 	out := map[string]*modGroup{}
 	all := false
+	x.modExcept = nil
 	add := func(name, sort string, whole bool, idx []string) {
 		g := out[name]
 		if g == nil {
@@ -621,6 +636,35 @@ func (x *Exec) resolveModifies(env *Env, items []ModItem, where string) (map[str
 			switch it.Kind {
 			case "all":
 				all = true
+			case "allexcept":
+				all = true
+				for _, part := range strings.Split(it.T, ";") {
+					part = strings.TrimSpace(strings.TrimPrefix(strings.TrimSpace(part), "type "))
+					i := strings.LastIndex(part, ".")
+					if i < 0 {
+						env.fail("modifies * except: bad item %q", part)
+					}
+					t, err := x.C.ResolveType(x.P, env.pkgPath, part[:i])
+					if err != nil {
+						env.fail("%v", err)
+					}
+					stt, ok := t.Underlying().(*types.Struct)
+					if !ok {
+						env.fail("modifies * except %s: not a struct", part)
+					}
+					_, path := findField(stt, part[i+1:])
+					if path == nil {
+						env.fail("modifies * except %s: no such field", part)
+					}
+					a := &Addr{Prefix: "fld_" + typeKey(t), Idx: []string{"0"}, T: t}
+					for _, fi := range path {
+						a = x.fieldAddr(a, fi)
+					}
+					for _, l := range x.sorts.leaves(a.T) {
+						x.modExcept = append(x.modExcept, a.Prefix+l.suffix)
+						x.noteArr(a.Prefix+l.suffix, x.leafHeapSort(a, l))
+					}
+				}
 			case "field":
 				base := env.tr(it.X)
 				pt, ok := base.T.Underlying().(*types.Pointer)
@@ -755,7 +799,35 @@ func (x *Exec) resolveModifies(env *Env, items []ModItem, where string) (map[str
 func (x *Exec) havocModifies(st *State, env *Env, con *Contract, name string) {
 	groups, all := x.resolveModifies(env, con.Modifies, name)
 	if all {
+		keep := map[string]string{}
+		for _, n := range x.modExcept {
+			keep[n] = x.heapArr(st, n, x.arrSorts[n])
+		}
+		bounds := map[string]string{}
+		for n := range keep {
+			bounds[n] = x.refBound(st, n)
+		}
 		x.havocAll(st)
+		// remember what this havoc-all preserved (intersection along the path)
+		if st.allKept == nil {
+			st.allKept = map[string]bool{}
+			for n := range keep {
+				st.allKept[n] = true
+			}
+		} else {
+			for n := range st.allKept {
+				if _, ok := keep[n]; !ok {
+					delete(st.allKept, n)
+				}
+			}
+		}
+		for n, v := range keep {
+			st.heap[n] = v
+			if st.heapBound == nil {
+				st.heapBound = map[string]string{}
+			}
+			st.heapBound[n] = bounds[n]
+		}
 		return
 	}
 	for _, n := range sortedKeys(groups) {
@@ -777,9 +849,18 @@ func (x *Exec) havocModifies(st *State, env *Env, con *Contract, name string) {
 
 func (x *Exec) havocAll(st *State) {
 	st.gen = x.newGen()
+	if len(st.localRefs) > 0 {
+		if st.preHavoc == nil {
+			st.preHavoc = map[string]string{}
+		}
+		for n, v := range st.heap {
+			st.preHavoc[n] = v
+		}
+	}
 	for n := range st.heap {
 		delete(st.heap, n)
 	}
+	st.heapBound = map[string]string{}
 	st.writtenAll = true
 }
 
@@ -1331,6 +1412,9 @@ func (x *Exec) higherOrder(st *State, fr *Frame, con *Contract, name string, sig
 	csig := clo.Fn.Signature
 	finishCall := func(st *State, fr *Frame, cres []Val) {
 		pre := st.clone()
+		na := x.freshConst("alloc", "Int")
+		st.assume(app("<=", st.alloc, na))
+		st.alloc = na
 		x.curCallee = name
 		x.havocModifies(st, env, con, name)
 		x.curCallee = ""
@@ -1481,4 +1565,57 @@ func (x *Exec) neverClosed(desc string) bool {
 		}
 	}
 	return false
+}
+
+func mentionsGhost(e Expr, con *Contract) bool {
+	if len(con.Ghosts) == 0 {
+		return false
+	}
+	ids := map[string]bool{}
+	collectIdents(e, ids)
+	for _, g := range con.Ghosts {
+		if ids[g.Name] {
+			return true
+		}
+	}
+	return false
+}
+
+func collectIdents(e Expr, out map[string]bool) {
+	switch n := e.(type) {
+	case EIdent:
+		out[n.Name] = true
+	case EBin:
+		collectIdents(n.L, out)
+		collectIdents(n.R, out)
+	case EUn:
+		collectIdents(n.X, out)
+	case EQuant:
+		collectIdents(n.Body, out)
+	case ECall:
+		for _, a := range n.Args {
+			collectIdents(a, out)
+		}
+	case ESel:
+		collectIdents(n.X, out)
+	case EIndex:
+		collectIdents(n.X, out)
+		collectIdents(n.I, out)
+	case ESlice:
+		collectIdents(n.X, out)
+		if n.Lo != nil {
+			collectIdents(n.Lo, out)
+		}
+		if n.Hi != nil {
+			collectIdents(n.Hi, out)
+		}
+	case ECast:
+		collectIdents(n.X, out)
+	case EDeref:
+		collectIdents(n.X, out)
+	case EIte:
+		collectIdents(n.C, out)
+		collectIdents(n.A, out)
+		collectIdents(n.B, out)
+	}
 }
